@@ -1,8 +1,201 @@
 import Gonuts.Model.Sexp
-/-! Driver commands `spec.*` (stateless): filled in by the Spec model. Core-only imports. -/
-namespace Gonuts.Model.SpecDriver
-open Gonuts
+import Gonuts.Spec.SelfTest
+/-!
+  Driver commands `spec.*` (stateless): the executable reference implementation `Gonuts.Spec.*`
+  behind the line protocol.  Core-only imports.
 
-def handle (_cmd : String) (_args : List Sexp) : Option Sexp := none
+  Byte strings travel as hex text (quoted strings, so that the empty string is expressible);
+  scalars as 32-byte hex; points as 33-byte compressed hex.  Scalar multiplication is the fast
+  path `Secp256k1.mulFast` (cross-checked against the affine definition by `spec.selftest` and
+  on demand by `spec.mulcheck`).
+
+    (spec.sha256 "hex") (spec.sha512 "hex") (spec.hmac512 "keyhex" "datahex")   → "hex"
+    (spec.h2c "msghex")                         → (ok "point" counter) | (none)
+    (spec.keysetid ((amount "keyhex") …))       → (ok "id") | (invalid-key)
+    (spec.nut13 "seedhex" "idhex" counter)      → (ok "secret" "r") | (invalid-seed) | (invalid-child)
+    (spec.nut13int "idhex")                     → keyset_id_int
+    (spec.ckd "seedhex" (i …))                  → (ok "key" "chaincode") | (invalid-seed) | (invalid-child)
+    (spec.p2pk "seedhex")                       → (ok "priv") | …
+    (spec.mintkeys "seedhex" idx)               → (ok "id" ("pub" …) ("priv" …)) | …
+    (spec.pub "k")                              → (ok "K")
+    (spec.blind "secrethex" "r")                → (ok "B_") | (none)
+    (spec.sign "B_" "k")                        → (ok "C_")
+    (spec.unblind "C_" "r" "K")                 → (ok "C")
+    (spec.verify "secrethex" "k" "C")           → true | false
+    (spec.hashe ("P" …))                        → (ok "hex")
+    (spec.dleqverify "e" "s" "A" "B_" "C_")     → true | false
+    (spec.parse "hex")                          → (ok "compressed" "uncompressed") | (invalid-point)
+    (spec.mulcheck "k" "P")                     → (ok "kP") | (mismatch "affine" "fast")
+    (spec.selftest)                             → (ok n) | (fail "name of the first failing vector")
+-/
+namespace Gonuts.Model.SpecDriver
+open Gonuts Gonuts.Spec Gonuts.Spec.Secp256k1
+
+/-- The scalar multiplication the driver runs. -/
+def M : Nat → Point → Point := mulFast
+
+def sx (s : String) : Sexp := Sexp.str s
+def ok (xs : List Sexp) : Sexp := Sexp.list (Sexp.atom "ok" :: xs)
+def tag (s : String) : Sexp := Sexp.list [Sexp.atom s]
+
+def bytes? (s : Sexp) : Option Bytes := do unhex? (← s.asStr?)
+
+/-- A scalar: exactly 32 bytes of hex.  Outer `none` = malformed, inner `none` = not in `[1, n−1]`. -/
+def scalar? (s : Sexp) : Option (Option Nat) := do
+  let b ← bytes? s
+  if b.length ≠ 32 then none
+  else
+    let k := beNat b
+    if k = 0 ∨ n ≤ k then some none else some (some k)
+
+/-- A point in SEC 1 octet form.  Outer `none` = malformed hex, inner `none` = not a point. -/
+def point? (s : Sexp) : Option (Option Point) := do
+  let b ← bytes? s
+  some (parse b)
+
+def comp (P : Point) : Sexp :=
+  match serCompressed P with
+  | some b => sx (hex b)
+  | none => Sexp.atom "inf"
+
+def scalarHex (k : Nat) : Sexp := sx (hex (natToBE 32 k))
+
+def xprvResult (seed : Bytes) (path : List Nat) (f : Bip32.XPrv → Sexp) : Sexp :=
+  match Bip32.master seed with
+  | none => tag "invalid-seed"
+  | some m =>
+    match Bip32.derivePath M m path with
+    | none => tag "invalid-child"
+    | some k => f k
+
+def keyPairs? : List Sexp → Option (List (Nat × Bytes))
+  | [] => some []
+  | Sexp.list [a, k] :: rest => do
+    let a ← a.asNat?
+    let k ← bytes? k
+    let tl ← keyPairs? rest
+    some ((a, k) :: tl)
+  | _ => none
+
+/-- Parse every key as a point and serialise it again in compressed form. -/
+def canonKeys : List (Nat × Bytes) → Option (List (Nat × Bytes))
+  | [] => some []
+  | (a, k) :: rest =>
+    if k.length ≠ 33 then none
+    else
+      match (parse k).bind serCompressed, canonKeys rest with
+      | some b, some tl => some ((a, b) :: tl)
+      | _, _ => none
+
+def handle (cmd : String) (args : List Sexp) : Option Sexp :=
+  match cmd, args with
+  | "spec.sha256", [m] => do some (sx (hex (sha256 (← bytes? m))))
+  | "spec.sha512", [m] => do some (sx (hex (sha512 (← bytes? m))))
+  | "spec.hmac512", [k, d] => do some (sx (hex (hmacSha512 (← bytes? k) (← bytes? d))))
+  | "spec.h2c", [m] => do
+    match HashToCurve.hashToCurveCounter (← bytes? m) with
+    | some (c, P) => some (ok [comp P, Sexp.ofNat c])
+    | none => some (tag "none")
+  | "spec.keysetid", [Sexp.list pairs] => do
+    match canonKeys (← keyPairs? pairs) with
+    | some ks => some (ok [sx (KeysetId.keysetId ks)])
+    | none => some (tag "invalid-key")
+  | "spec.nut13int", [id] => do some (Sexp.ofNat (Nut13.keysetIdInt (← bytes? id)))
+  | "spec.nut13", [seed, id, counter] => do
+    let seed ← bytes? seed
+    let id ← bytes? id
+    let c ← counter.asNat?
+    if Bip32.hardenedStart ≤ c then none
+    else
+      match Bip32.master seed with
+      | none => some (tag "invalid-seed")
+      | some _ =>
+        match Nut13.deriveSecret M seed id c, Nut13.deriveBlindingFactor M seed id c with
+        | some s, some r => some (ok [sx s, scalarHex r])
+        | _, _ => some (tag "invalid-child")
+  | "spec.ckd", [seed, Sexp.list path] => do
+    let seed ← bytes? seed
+    let path ← path.mapM Sexp.asNat?
+    if path.any (fun i => 2 ^ 32 ≤ i) then none
+    else some (xprvResult seed path (fun k => ok [scalarHex k.key, sx (hex k.chain)]))
+  | "spec.p2pk", [seed] => do
+    some (xprvResult (← bytes? seed) Nut13.p2pkPath (fun k => ok [scalarHex k.key]))
+  | "spec.mintkeys", [seed, idx] => do
+    let seed ← bytes? seed
+    let idx ← idx.asNat?
+    if Bip32.hardenedStart ≤ idx then none
+    else
+      match Bip32.master seed with
+      | none => some (tag "invalid-seed")
+      | some _ =>
+        match MintKeys.mintKeys M seed idx with
+        | none => some (tag "invalid-child")
+        | some keys =>
+          match MintKeys.keysetIdOf keys with
+          | none => some (tag "invalid-child")
+          | some id => some (ok [sx id, Sexp.list (keys.map (fun k => comp k.pub)), Sexp.list (keys.map (fun k => scalarHex k.priv))])
+  | "spec.pub", [k] => do
+    match ← scalar? k with
+    | some k => some (ok [comp (M k G)])
+    | none => some (tag "invalid-scalar")
+  | "spec.blind", [secret, r] => do
+    let secret ← bytes? secret
+    match ← scalar? r with
+    | none => some (tag "invalid-scalar")
+    | some r =>
+      match Bdhke.blind M secret r with
+      | some B => some (ok [comp B])
+      | none => some (tag "none")
+  | "spec.sign", [b, k] => do
+    match ← point? b, ← scalar? k with
+    | some B, some k => some (ok [comp (Bdhke.sign M B k)])
+    | none, _ => some (tag "invalid-point")
+    | _, none => some (tag "invalid-scalar")
+  | "spec.unblind", [c, r, k] => do
+    match ← point? c, ← scalar? r, ← point? k with
+    | some C_, some r, some K => some (ok [comp (Bdhke.unblind M C_ r K)])
+    | _, none, _ => some (tag "invalid-scalar")
+    | _, _, _ => some (tag "invalid-point")
+  | "spec.verify", [secret, k, c] => do
+    let secret ← bytes? secret
+    match ← scalar? k, ← point? c with
+    | some k, some C => some (Sexp.ofBool (Bdhke.verify M secret k C))
+    | none, _ => some (tag "invalid-scalar")
+    | _, none => some (tag "invalid-point")
+  | "spec.hashe", [Sexp.list ps] => do
+    let ps ← ps.mapM point?
+    match ps.mapM id with
+    | none => some (tag "invalid-point")
+    | some ps =>
+      match Bdhke.hashE ps with
+      | some h => some (ok [sx (hex h)])
+      | none => some (tag "invalid-point")
+  | "spec.dleqverify", [e, s, a, b, c] => do
+    match ← scalar? e, ← scalar? s, ← point? a, ← point? b, ← point? c with
+    | some e, some s, some A, some B, some C => some (Sexp.ofBool (Bdhke.verifyDleq M e s A B C))
+    | none, _, _, _, _ => some (tag "invalid-scalar")
+    | _, none, _, _, _ => some (tag "invalid-scalar")
+    | _, _, _, _, _ => some (tag "invalid-point")
+  | "spec.parse", [b] => do
+    match ← point? b with
+    | some P =>
+      match serCompressed P, serUncompressed P with
+      | some c, some u => some (ok [sx (hex c), sx (hex u)])
+      | _, _ => some (tag "invalid-point")
+    | none => some (tag "invalid-point")
+  | "spec.mulcheck", [k, pt] => do
+    let kb ← bytes? k
+    match ← point? pt with
+    | none => some (tag "invalid-point")
+    | some P =>
+      let k := beNat kb
+      let a := mul k P
+      let f := mulFast k P
+      if a = f then some (ok [comp a]) else some (Sexp.list [Sexp.atom "mismatch", comp a, comp f])
+  | "spec.selftest", [] =>
+    match SelfTest.firstFailure M with
+    | none => some (ok [Sexp.ofNat (SelfTest.count M)])
+    | some name => some (Sexp.list [Sexp.atom "fail", sx name])
+  | _, _ => none
 
 end Gonuts.Model.SpecDriver
